@@ -5,6 +5,7 @@ import (
 	"os"
 	"path/filepath"
 	"strings"
+	"sync"
 	"syscall"
 	"time"
 
@@ -615,6 +616,51 @@ func c16Run(ctx *core.Ctx, tree int, dotu bool) core.Result {
 		if _, err := c.FStat(nd.rel + "/no-such-child/deeper"); err == nil {
 			fail("client-fstat-missing-succeeds", "FStat of a path that does not exist succeeded")
 		}
+	}
+	// the same through several goroutines that share the client (after the deep paths above have been resolved
+	// through it): every name still resolves to its own object
+	{
+		var wg sync.WaitGroup
+		var mu sync.Mutex
+		all := append(append([]node{}, nodes...), through...)
+		for g := 0; g < 8; g++ {
+			wg.Add(1)
+			go func(g int) {
+				defer wg.Done()
+				gr := core.NewRand(ctx.Seed, fmt.Sprintf("c16conc/%d/%v/%d", tree, dotu, g))
+				for i := 0; i < 25; i++ {
+					nd := all[gr.Intn(len(all))]
+					fi := lstat(nd.rel)
+					if fi == nil {
+						continue
+					}
+					d, err := c.FStat(nd.rel)
+					mu.Lock()
+					res.Evals++
+					if err != nil {
+						if len(res.Violations) < 6 {
+							fail("client-fstat-failed;concurrent;"+nd.kind, fmt.Sprintf("FStat(%q) of an existing %s by one of 8 goroutines sharing the client: %v", short(nd.rel), nd.kind, err))
+						}
+						mu.Unlock()
+						continue
+					}
+					ws := wire.Stat{Qid: wire.Qid{Type: d.Qid.Type, Version: d.Qid.Version, Path: d.Qid.Path}, Mode: d.Mode, Length: d.Length, Mtime: d.Mtime, Name: d.Name}
+					if e := checkStat(&ws, fi, baseOf(nd.rel), c.Dotu); e != "" && len(res.Violations) < 6 {
+						fail("client-fstat-differs;concurrent;"+nd.kind, fmt.Sprintf("FStat(%q) by one of 8 goroutines sharing the client: %s", short(nd.rel), e))
+					}
+					mu.Unlock()
+				}
+			}(g)
+		}
+		done := make(chan struct{})
+		go func() { wg.Wait(); close(done) }()
+		select {
+		case <-done:
+		case <-time.After(4 * W):
+			res.Inconclusive = "c16: concurrent FStats did not finish"
+			return res
+		}
+		res.Count("concurrent_fstat_goroutines", 8)
 	}
 	// FWalk leaves a usable fid on the object
 	for i := 0; i < 20; i++ {
